@@ -62,6 +62,11 @@ func c11Plan(seed int64, tier string) []core.Case {
 		if e == "bam" || e == "bgzf" || e == "cram" {
 			n = per / 2
 		}
+		if tier == "thorough" && (e == "bai" || e == "csi" || e == "tabix" || e == "header-binary") {
+			// a quarter of the mutants of these count-heavy formats die at
+			// the memory limit (not judged), each costing a child process
+			n = per / 3
+		}
 		for i := 0; i < n; i += batch {
 			cs = append(cs, core.Case{Kind: e, Seed: core.SubSeed(seed, "c11", e, i), P: map[string]int64{"n": int64(batch)}})
 		}
@@ -88,6 +93,13 @@ func c11Plan(seed int64, tier string) []core.Case {
 		}
 		cs = append(cs, core.Case{Kind: "bam-fields", Seed: core.SubSeed(seed, "c11", "bam-fields", p), P: map[string]int64{"part": int64(p), "n": c11AuxPart}})
 	}
+	// bam-rg: a header with a read group and a program, records whose RG, PG,
+	// PU and LB fields take every aux type and matching / other values - what
+	// Header.Validate looks at.
+	gparts := (len(c11RGFamily()) + c11AuxPart - 1) / c11AuxPart
+	for p := 0; p < gparts; p++ {
+		cs = append(cs, core.Case{Kind: "bam-rg", Seed: core.SubSeed(seed, "c11", "bam-rg", p), P: map[string]int64{"part": int64(p), "n": c11AuxPart}})
+	}
 	tparts := (len(c11AuxTextFamily()) + c11AuxPart - 1) / c11AuxPart
 	for p := 0; p < tparts; p++ {
 		if tier != "thorough" && (p+rng.Intn(3))%3 != 0 {
@@ -101,6 +113,51 @@ func c11Plan(seed int64, tier string) []core.Case {
 const c11AuxPart = 400
 
 var c11EmptyHdr, _ = sam.NewHeader(nil, nil)
+
+var c11RGFam [][]byte
+
+// c11RGFamily enumerates BAM streams whose header has one read group (with PU
+// and LB) and one program, and whose single record carries RG, PG, PU and LB
+// fields in every combination of a few typed values.
+func c11RGFamily() [][]byte {
+	if c11RGFam != nil {
+		return c11RGFam
+	}
+	text := []byte("@HD\tVN:1.6\n@RG\tID:g1\tPU:unit1\tLB:lib1\n@PG\tID:p1\tPN:tool\n")
+	hdr := oracle.EncodeBAMHeader(text, nil)
+	val := func(tag string, match string) [][]byte {
+		t := []byte(tag)
+		z := func(s string) []byte { return append(append(append([]byte{}, t...), 'Z'), append([]byte(s), 0)...) }
+		return [][]byte{
+			nil, // absent
+			z(match),
+			z("other"),
+			z(""),
+			append(append([]byte{}, t...), 'A', 'x'),
+			append(append([]byte{}, t...), 'c', 0xff),
+			append(append([]byte{}, t...), 'S', 1, 0),
+			append(append([]byte{}, t...), 'i', 1, 0, 0, 0),
+			append(append([]byte{}, t...), 'f', 0, 0, 0x80, 0x3f),
+			append(append([]byte{}, t...), 'H', '1', 'A', 0),
+			append(append([]byte{}, t...), 'B', 'c', 2, 0, 0, 0, 1, 2),
+		}
+	}
+	rgs, pgs, pus, lbs := val("RG", "g1"), val("PG", "p1"), val("PU", "unit1"), val("LB", "lib1")
+	var out [][]byte
+	for _, rg := range rgs {
+		for _, pg := range pgs[:4] {
+			for _, pu := range pus {
+				for _, lb := range lbs {
+					aux := append(append(append(append([]byte{}, rg...), pg...), pu...), lb...)
+					raw := c11AuxBAM(aux)
+					out = append(out, append(append([]byte{}, hdr...), raw[len(oracle.EncodeBAMHeader(nil, nil)):]...))
+				}
+			}
+		}
+	}
+	c11RGFam = out
+	return out
+}
 
 var c11FieldFam [][]byte
 
@@ -660,7 +717,7 @@ func c11Decode(e string, in []byte, variant int) (reads int, over bool) {
 			r.Close()
 		}
 		return st.n, st.over
-	case "bam", "bam-aux", "bam-fields":
+	case "bam", "bam-aux", "bam-fields", "bam-rg":
 		st := newStep(in)
 		br, err := bam.NewReader(st, 1+variant/3)
 		if err == nil {
@@ -847,6 +904,13 @@ func c11Run(c core.Case) *core.Result {
 			valid = append(valid, fam[i])
 		}
 		n = len(valid)
+	case "bam-rg":
+		fam := c11RGFamily()
+		lo := c.Int("part") * c11AuxPart
+		for i := lo; i < lo+c11AuxPart && i < len(fam); i++ {
+			valid = append(valid, fam[i])
+		}
+		n = len(valid)
 	case "bam-fields":
 		fam := c11FieldFamily()
 		lo := c.Int("part") * c11AuxPart
@@ -958,7 +1022,7 @@ func c11Run(c core.Case) *core.Result {
 			data = gen.FileFromData(rng, in, nil, 0, true).Bytes
 			nt++ // every (stream, variant) pair is distinct by construction
 		}
-		if e == "bam-aux" {
+		if e == "bam-aux" || e == "bam-rg" {
 			data = gen.FileFromData(rng, in, nil, 0, true).Bytes
 			if !seen[string(in)] {
 				seen[string(in)] = true
@@ -977,7 +1041,7 @@ func c11Run(c core.Case) *core.Result {
 			nt++
 		}
 		variant := rng.Intn(6)
-		if e == "bam-aux" {
+		if e == "bam-aux" || e == "bam-rg" {
 			variant = 3 * (variant % 2) // aux fields are only parsed without Omit
 		}
 		if e == "bam-fields" {
